@@ -213,7 +213,8 @@ theorem C18_producer_first (Y : YieldFn) (F : BodyFn) (ts : List PTask) (w : Wor
 
 /-- **C18_generated.** A build reaches state `sm` and hands out the generator `g` (not skipped, its body does not raise).
 Let `kids` be what its body defines, given the files matching its pattern dependencies at that moment, all of them
-collectable (since f1fcb9a a defined task whose collection fails makes the generator FAIL and nothing is added). If the build
+collectable (since f1fcb9a a defined task whose collection fails makes the generator FAIL and nothing is added) and none of
+them with the name of an existing or of another defined task (6571c4f: the generator FAILs likewise). If the build
 then runs to its natural end (`s'`: nothing left to schedule, not stopped, no crash), every defined task `k` with a
 fresh id (a) was handed out in the *same* build, after the generator, (b) has a report, (c) had its function called at
 most once, and (d) was handed out only after all its own ancestors in the then-current graph had finished (C18_order).
@@ -226,6 +227,7 @@ theorem C18_generated (Y : YieldFn) (F : BodyFn) (ts : List PTask) (w : World) (
     (hrn : g ∉ (setupProvisional { sm with so := sm.so.take [tv g] } g).renewed)
     (hend : s'.stop = false ∧ s'.crashed = false ∧ s'.so.isActive = false)
     (hcoll : ∀ x ∈ Y g (G.pdeps.map (fun sl => sl.res.getD (sl.pat.glob sm.w.fs))), x.uncollectable = false)
+    (hclash : nameClash sm.tasks (Y g (G.pdeps.map (fun sl => sl.res.getD (sl.pat.glob sm.w.fs)))) = false)
     (k : PTask) (hk : k ∈ Y g (G.pdeps.map (fun sl => sl.res.getD (sl.pat.glob sm.w.fs))))
     (hfresh : findTask sm.tasks k.id = none) :
     k.id ∈ post ∧ (∃ o, (k.id, o) ∈ s'.reports) ∧ s'.log.count k.id ≤ 1 := by
@@ -262,8 +264,9 @@ theorem C18_generated (Y : YieldFn) (F : BodyFn) (ts : List PTask) (w : World) (
   -- the defined task is in `session.tasks` after the generator's protocol, and stays known
   have hkin : k ∈ (stepOf Y F sm g).tasks := by
     show k ∈ (protocol Y F { sm with so := sm.so.take [tv g] } g).tasks
-    refine protocol_gen_tasks Y F { sm with so := sm.so.take [tv g] } g G hG hgen hnf hfm hrn ?_ k ?_
+    refine protocol_gen_tasks Y F { sm with so := sm.so.take [tv g] } g G hG hgen hnf hfm hrn ?_ ?_ k ?_
     · rw [received_resolvedDeps]; exact hcoll
+    · rw [received_resolvedDeps]; exact hclash
     · rw [received_resolvedDeps]; exact hk
   have hknown : (findTask s'.tasks k.id).isSome := (loop_mono post _ s' h5).2 _ (findTask_isSome_of_mem hkin)
   have hdone : k.id ∈ pre ++ g :: post := complete_all_done hi' hend.1 hend.2.2 _ hknown
@@ -307,7 +310,7 @@ set_option maxRecDepth 8000 in
 /-- `C18_generated`, `C18_producer_first`, `C18_order`, `C18_gen_once` instantiated on that build -/
 example : 21001 ∈ [3, 21000, 21001] ∧ (∃ o, (21001, o) ∈ exS'.reports) ∧ exS'.log.count 21001 ≤ 1 :=
   C18_generated exY f11F exTs exW exS0 exSm exS' [1] 2 [3, 21000, 21001] (by rfl) (by rfl) (by rfl) exGen (by decide +kernel) rfl rfl
-    (by decide +kernel) (by decide +kernel) (by decide +kernel) (by decide +kernel) { id := 21001, src := 9000, deps := [1001], prods := [21001] } (by decide +kernel) (by decide +kernel)
+    (by decide +kernel) (by decide +kernel) (by decide +kernel) (by decide +kernel) (by decide +kernel) { id := 21001, src := 9000, deps := [1001], prods := [21001] } (by decide +kernel) (by decide +kernel)
 
 set_option maxRecDepth 8000 in
 example : exProd.id ∈ [1, 2] :=
